@@ -1209,7 +1209,10 @@ def _ch_spec(ex, env):
             me.fields['chosenBy'] = tagSet
             me.fields['chosen'] = value
         return Obj('Choice', {'tagSet': Obj('TagSet', {}, {'__eq__': eq}, name='choice.tagSet'), 'componentTagMap': CH_MAP,
-                              'chosen': None, 'chosenBy': None, 'cloneOf': self}, {'setComponentByType': by_type},
+                              'chosen': None, 'chosenBy': None, 'cloneOf': self,
+                              # the constraints of the CHOICE type itself (WITH COMPONENTS), evaluated by type.univ
+                              'isInconsistent': INCONSISTENCY if ex2.choose(z3.Bool('value.inconsistent'), 'inconsistent')
+                              else False}, {'setComponentByType': by_type},
                    name='asn1Object')
     return Obj('Choice', {}, {'clone': clone}, name='asn1Spec')
 
@@ -1221,7 +1224,8 @@ CHOICE_DEC = Contract(
                 asn1Spec=PDerived(_ch_spec), tagSet=PConst(Obj('TagSet', {}, name='tagSet')), length=PInt(),
                 state=PConst(CH_STATE), decodeFun=PConst(FnV(_ch_decode, 'decodeFun')), substrateFun=PConst(None),
                 options=POptions()),
-    globals={'isTagged': z3.Bool('choice.isTagged'), 'componentTagMap': CH_MAP, 'callerState': CH_STATE},
+    globals={'isTagged': z3.Bool('choice.isTagged'), 'componentTagMap': CH_MAP, 'callerState': CH_STATE,
+             'inconsistent': z3.Bool('value.inconsistent')},
     calls={'decodeFun': _ch_decode, 'self._passAsn1Object': lambda ex, o, options: options},
     yield_ensures=[
         ('fresh-object-not-the-guide', 'y is not asn1Spec and y.cloneOf is asn1Spec'),
@@ -1232,7 +1236,9 @@ CHOICE_DEC = Contract(
                                                     'and y.chosen.stateArg is None)'),
         # ... an untagged one *is* the alternative's encoding: same tags, same length, same dispatcher state
         ('untagged-choice-re-dispatches-this-element', '(not isTagged) ==> (y.chosen.tagSetArg is tagSet and '
-                                                       'y.chosen.lengthArg == length and y.chosen.stateArg is callerState)')],
+                                                       'y.chosen.lengthArg == length and y.chosen.stateArg is callerState)'),
+        # C10: a value that the constraints of the CHOICE type itself refuse is not handed out
+        ('only-consistent-values-are-handed-out', 'not inconsistent')],
     exit_ensures=[('one-result', 'nyields() == 1')],
     may_raise={'PyAsn1Error': True},
     note='decodeFun, asn1Spec.clone and setComponentByType are assumed models; _passAsn1Object only adds an option')
@@ -1735,7 +1741,9 @@ def _chi_spec(ex, env):
             me.fields['assignments'] = me.fields['assignments'] + 1
         return Obj('Choice', {'tagSet': Obj('TagSet', {}, {'__eq__': eq}, name='choice.tagSet'),
                               'componentType': Obj('NamedTypes', {'tagMapUnique': UNIQUE_MAP}, name='componentType'),
-                              'allOk': z3.BoolVal(True), 'isValue': z3.BoolVal(False), 'assignments': IntVal(0), 'cloneOf': self},
+                              'allOk': z3.BoolVal(True), 'isValue': z3.BoolVal(False), 'assignments': IntVal(0), 'cloneOf': self,
+                              'isInconsistent': INCONSISTENCY if ex2.choose(z3.Bool('value.inconsistent'), 'inconsistent')
+                              else False},
                    {'setComponentByType': by_type}, name='asn1Object')
     return Obj('Choice', {}, {'clone': clone}, name='asn1Spec')
 
@@ -1761,7 +1769,7 @@ CHOICE_DEC_INDEF = Contract(
                 state=PConst(CH_STATE), decodeFun=PConst(FnV(_chi_decode, 'decodeFun')), substrateFun=PConst(None),
                 options=POptions()),
     globals={'isTagged': z3.Bool('choice.isTagged'), 'tagMapUnique': UNIQUE_MAP, 'callerState': CH_STATE,
-             'eoo': {'endOfOctets': END_OF_OCTETS, '__name__': 'eoo'}},
+             'eoo': {'endOfOctets': END_OF_OCTETS, '__name__': 'eoo'}, 'inconsistent': z3.Bool('value.inconsistent')},
     calls={'decodeFun': _chi_decode, 'self._passAsn1Object': lambda ex, o, options: options},
     loops={1: Loop(invariant=['not value_yielded()', 'asn1Object.assignments >= 0',
                               'asn1Object.isValue == (asn1Object.assignments > 0)',
@@ -1773,7 +1781,8 @@ CHOICE_DEC_INDEF = Contract(
                          'effectiveTagSet': Obj('Stale', {}, name='tags-of-the-previous-round')}),
            2: Loop(unroll=True)},
     yield_ensures=[
-        ('underruns-relayed-then-the-choice', '(not isinstance(y, SubstrateUnderrunError)) ==> (y.cloneOf is asn1Spec and y.isValue and y.allOk)')],
+        ('underruns-relayed-then-the-choice', '(not isinstance(y, SubstrateUnderrunError)) ==> (y.cloneOf is asn1Spec and y.isValue and y.allOk)'),
+        ('only-consistent-values-are-handed-out', '(not isinstance(y, SubstrateUnderrunError)) ==> (not inconsistent)')],
     exit_ensures=[
         # an explicit tag with nothing inside is refused, never a valueless CHOICE
         ('a-value-or-an-error', 'last_yield().assignments >= 1')],
